@@ -2392,6 +2392,7 @@ package sod
 //@ modifies Schema.db@s, Schema.object@s, Schema.Fields@s, Schema.transformers@s, Schema.ObjectIndex@s, Schema.AsyncWrites@s
 //@ allocates Async.Enable, Async.Threshold, Async.Timeout, Async.routineStarted, Elem[*indexedField], Elem[string], MapCard[string,*fieldIndex], MapCard[string,FieldDescriptor], MapCard[string,uint64], MapCard[uint64,*indexedField], MapCard[uint64,string], MapDom[string,*fieldIndex], MapDom[string,FieldDescriptor], MapDom[string,uint64], MapDom[uint64,*indexedField], MapDom[uint64,string], MapVal[string,*fieldIndex], MapVal[string,uint64], MapVal[uint64,*indexedField], MapVal[uint64,string], fieldIndex.Cast, fieldIndex.Constraints.Index, fieldIndex.Constraints.Lower, fieldIndex.Constraints.Unique, fieldIndex.Constraints.Upper, fieldIndex.Index, fieldIndex.Name, fieldIndex.nameSplit, fieldIndex.objectIds, fieldIndex.pos, objIndex.Fields, objIndex.ObjectIds, objIndex.base, objIndex.i, objIndex.otype, objIndex.uuids, objIndex.ver
 //@ allocates MapVal[string,FieldDescriptor].Constraints.Index, MapVal[string,FieldDescriptor].Constraints.Lower, MapVal[string,FieldDescriptor].Constraints.Unique, MapVal[string,FieldDescriptor].Constraints.Upper, MapVal[string,FieldDescriptor].Path, MapVal[string,FieldDescriptor].Type
+//@ allocates Elem[FieldDescriptor].Constraints.Index, Elem[FieldDescriptor].Constraints.Lower, Elem[FieldDescriptor].Constraints.Unique, Elem[FieldDescriptor].Constraints.Upper, Elem[FieldDescriptor].Path, Elem[FieldDescriptor].Type, FieldDescriptor.Constraints.Index, FieldDescriptor.Constraints.Lower, FieldDescriptor.Constraints.Unique, FieldDescriptor.Constraints.Upper, FieldDescriptor.Path, FieldDescriptor.Type
 
 //@ func (*Schema).isCompatibleWith
 //@ serves C17
@@ -2450,3 +2451,4 @@ package sod
 //@ ensures [C01 C10 C17 Create.wf] imp(err == nil && old(has(db.schemas, T)), collsOK(db))
 //@ modifies Ghost.ACQ_H, Ghost.FSk, Ghost.FSc, Schema.Cache, Schema.AsyncWrites, Async.routineStarted, MapDom[string,*Schema]@db.schemas, MapVal[string,*Schema]@db.schemas, MapCard[string,*Schema]@db.schemas, MapDom[string,Object], MapCard[string,Object], MapDom[string,*objectMap]@db.cache.m, MapCard[string,*objectMap]@db.cache.m
 //@ allocates Async.Enable, Async.Threshold, Async.Timeout, Elem[*indexedField], Elem[interface{}], Elem[os.DirEntry], Elem[string], Elem[uint8], FieldDescriptor.Constraints.Index, FieldDescriptor.Constraints.Lower, FieldDescriptor.Constraints.Unique, FieldDescriptor.Constraints.Upper, FieldDescriptor.Path, FieldDescriptor.Type, MapCard[string,*fieldIndex], MapCard[string,FieldDescriptor], MapCard[string,bool], MapCard[string,uint64], MapCard[uint64,*indexedField], MapCard[uint64,string], MapDom[string,*fieldIndex], MapDom[string,FieldDescriptor], MapDom[string,bool], MapDom[string,uint64], MapDom[uint64,*indexedField], MapDom[uint64,string], MapVal[string,*fieldIndex], MapVal[string,FieldDescriptor].Constraints.Index, MapVal[string,FieldDescriptor].Constraints.Lower, MapVal[string,FieldDescriptor].Constraints.Unique, MapVal[string,FieldDescriptor].Constraints.Upper, MapVal[string,FieldDescriptor].Path, MapVal[string,FieldDescriptor].Type, MapVal[string,bool], MapVal[string,uint64], MapVal[uint64,*indexedField], MapVal[uint64,string], Schema.Compress, Schema.Extension, Schema.Fields, Schema.ObjectIndex, Schema.coherent, Schema.db, Schema.object, Schema.transformers, fieldIndex.Cast, fieldIndex.Constraints.Index, fieldIndex.Constraints.Lower, fieldIndex.Constraints.Unique, fieldIndex.Constraints.Upper, fieldIndex.Index, fieldIndex.Name, fieldIndex.nameSplit, fieldIndex.objectIds, fieldIndex.pos, indexedField.ObjectId, indexedField.Value, objIndex.Fields, objIndex.ObjectIds, objIndex.base, objIndex.i, objIndex.otype, objIndex.uuids, objIndex.ver
+//@ allocates Elem[FieldDescriptor].Constraints.Index, Elem[FieldDescriptor].Constraints.Lower, Elem[FieldDescriptor].Constraints.Unique, Elem[FieldDescriptor].Constraints.Upper, Elem[FieldDescriptor].Path, Elem[FieldDescriptor].Type
